@@ -210,6 +210,8 @@ func verifLemmaTraversalComplete(E iface.IPFSLogOrderedEntries, H iface.IPFSLogO
 //@ @wf assert "l.Entries.Set(e.GetHash().String(), e)" [old-heads-were-not-indexed] forall j int, k string :: 0 <= j && j < len(e.Next) && k == str(e.Next[j]) ==> !old(has(idx(l), k))
 //@ @wf assert "l.Entries.Set(e.GetHash().String(), e)" [an-old-entry-with-the-new-hash-has-the-new-links] forall k string :: old(has(ent(l), k)) && k == ehash(e) ==> sameCids(old(ent(l)[k]).Next, e.Next)
 //@ @wf assert "l.Entries.Set(e.GetHash().String(), e)" [no-indexed-entry-has-the-new-hash] forall n string :: old(has(idx(l), n)) ==> ehash(old(idx(l)[n])) != ehash(e)
+//@ @wf assert "l.Entries.Set(e.GetHash().String(), e)" [the-new-hash-is-not-a-link-of-the-new-entry] forall i int :: 0 <= i && i < len(next) ==> str(next[i]) != ehash(e)
+//@ @wf assert "l.Entries.Set(e.GetHash().String(), e)" [the-new-hash-is-not-indexed-yet] !has(idx(l), ehash(e))
 //@ @wf assert "l.Entries.Set(e.GetHash().String(), e)" [new-entry-names-its-links] forall i int :: 0 <= i && i < len(next) ==> names(e, str(next[i]))
 //@ @wf assert "l.Entries.Set(e.GetHash().String(), e)" [new-entry-links-rank-below-it] forall j int :: 0 <= j && j < len(e.Next) ==> rank(str(e.Next[j])) < rank(ehash(e))
 //@ @wf assert "l.Entries.Set(e.GetHash().String(), e)" [entries-are-old-or-the-new-entry] forall k string :: has(ent(l), k) ==> (k == ehash(e) && ent(l)[k] == e) || (old(has(ent(l), k)) && ent(l)[k] == old(ent(l)[k]))
@@ -228,6 +230,8 @@ func verifLemmaTraversalComplete(E iface.IPFSLogOrderedEntries, H iface.IPFSLogO
 //@ @wf ensures [append-keeps-one-log-id] oneLogID(l)
 //@ @wf ensures [no-entry-names-a-head] forall k string, k2 string, j int :: has(hds(l), k) && has(ent(l), k2) && 0 <= j && j < len(ent(l)[k2].Next) ==> str(ent(l)[k2].Next[j]) != k
 //@ @wf ensures [an-entry-that-is-no-head-is-named-by-its-index-record] forall k string :: has(ent(l), k) ==> has(hds(l), k) || (has(idx(l), k) && has(ent(l), ehash(idx(l)[k])) && ent(l)[ehash(idx(l)[k])] == idx(l)[k] && names(idx(l)[k], k))
+//@ @wf ensures [every-head-is-an-entry-that-nothing-names] forall k string :: has(hds(l), k) ==> has(ent(l), k) && notNamedIn(l.Entries, k)
+//@ @wf ensures [every-entry-is-a-head-or-is-named] forall k string :: has(ent(l), k) ==> has(hds(l), k) || namedIn(l.Entries, k)
 //@ @wf ensures [heads-are-exactly-the-unreferenced-entries] headsExact(l)
 //@ @wf ensures [log-with-entries-has-a-head] len(om(l.Entries).keys) > 0 && err == nil ==> len(om(l.heads).keys) > 0
 //@   ensures [appended-entry-is-the-single-head] err == nil ==> forall k string :: has(om(l.heads).values, k) <==> k == ehash(result0)
@@ -261,6 +265,7 @@ func verifLemmaTraversalComplete(E iface.IPFSLogOrderedEntries, H iface.IPFSLogO
 //@     invariant forall k string :: has(om(l.Entries).values, k) == has(old(om(l.Entries).values), k) || k == ehash(e)
 //@ @wf invariant [index-records-are-old-or-processed-links-of-the-new-entry] forall n string :: has(idx(l), n) ==> (old(has(idx(l), n)) && idx(l)[n] == old(idx(l)[n])) || (idx(l)[n] == e && (exists i int :: 0 <= i && i < $k && n == str(next[i])))
 //@ @wf invariant [index-keeps-old-records] forall n string :: old(has(idx(l), n)) ==> has(idx(l), n)
+//@ @wf invariant [the-new-hash-stays-unindexed] !has(idx(l), ehash(e))
 //@ @wf invariant [index-records-processed-links] forall i int :: 0 <= i && i < $k ==> has(idx(l), str(next[i]))
 //@     loopmodifies om(l.Next).keys, mapof(om(l.Next).values)
 
@@ -554,6 +559,8 @@ func verifLemmaSourceConnected(o *IPFSLog, A iface.IPFSLogOrderedEntries) {
 //@ @wf ensures [every-unreferenced-entry-is-a-merged-head] err == nil && size < 0 && l != nil ==> headsAll(l)
 //@ @wf ensures [no-entry-names-a-head] err == nil && size < 0 && l != nil ==> forall k string, k2 string, j int :: has(hds(l), k) && has(ent(l), k2) && 0 <= j && j < len(ent(l)[k2].Next) ==> str(ent(l)[k2].Next[j]) != k
 //@ @wf ensures [an-entry-that-is-no-head-is-named-by-its-index-record] err == nil && size < 0 && l != nil ==> forall k string :: has(ent(l), k) ==> has(hds(l), k) || (has(idx(l), k) && has(ent(l), ehash(idx(l)[k])) && ent(l)[ehash(idx(l)[k])] == idx(l)[k] && names(idx(l)[k], k))
+//@ @wf ensures [every-head-is-an-entry-that-nothing-names] err == nil && size < 0 && l != nil ==> forall k string :: has(hds(l), k) ==> has(ent(l), k) && notNamedIn(l.Entries, k)
+//@ @wf ensures [every-entry-is-a-head-or-is-named] err == nil && size < 0 && l != nil ==> forall k string :: has(ent(l), k) ==> has(hds(l), k) || namedIn(l.Entries, k)
 //@ @wf ensures [heads-are-exactly-the-unreferenced-entries] err == nil && size < 0 && l != nil ==> headsExact(l)
 //@ @wf ensures [merge-result-is-the-union-of-both-entry-sets] err == nil && size < 0 && l != nil && otherLog != nil && otherLog.(*IPFSLog) != l && l.ID == otherLog.(*IPFSLog).ID ==> forall k string :: has(ent(l), k) <==> old(has(ent(l), k)) || old(has(ent(otherLog.(*IPFSLog)), k))
 //@ @wf ensures [merged-entries-are-the-source-objects] err == nil && size < 0 && l != nil && otherLog != nil && otherLog.(*IPFSLog) != l ==> forall k string :: has(ent(l), k) && !old(has(ent(l), k)) ==> old(has(ent(otherLog.(*IPFSLog)), k)) && ent(l)[k] == old(ent(otherLog.(*IPFSLog))[k])
